@@ -11,6 +11,7 @@ CONSTANTS
   Inputs(_, _, _),  \* (kind, state, ghost) -> finite set of input records of that kind offered there
   Bal0,          \* initial balance of every user: [Users -> [Denoms -> Nat]]
   Params0,       \* initial module parameters
+  RejectSample,  \* transition coverage: emit one in RejectSample rejected inputs (0: none)
   NL,            \* number of registered hook listeners (C17); 0 in most instances
   KeepHist,      \* TRUE: hist records every input (generators); FALSE: stays empty
   GenDepth,      \* generators: behaviour length at which the input history is written out
@@ -125,7 +126,11 @@ NoNegative == \A x \in Accts : \A d \in Denoms : st.bal[x][d] >= 0
 (* input sequence of its first discovery, so printing hist' for every state-changing transition *)
 (* yields one input sequence per transition of the explored instance; they are replayed on the  *)
 (* real code ("one implementation test per transition of the model")                            *)
-EmitT == (KeepHist /\ st' # st) => PrintT("TRACE " \o ToJson(<<InitAct>> \o hist'))
+(* Rejected inputs (self-loops) are far more numerous; a sample of them (one in RejectSample, 0 = none) is  *)
+(* emitted as well, so that "stays rejected" is replayed on the real code too.                            *)
+EmitT ==
+  (KeepHist /\ (st' # st \/ (RejectSample > 0 /\ ~res'.ok /\ RandomElement(1..RejectSample) = 1)))
+     => PrintT("TRACE " \o ToJson(<<InitAct>> \o hist'))
 
 (* generators: write the input history of every behaviour of length GenDepth *)
 EmitHist ==
